@@ -388,6 +388,8 @@ def argmin(self, axis=None, skipna=False):
 
     # along axis: single axis value
     if axis is not None: # res is DimArray
+        if np.ndim(res) == 0: # ...or a scalar for a 1-d array
+            return obj.axes[idx].values[res]
         res.values = obj.axes[idx].values[res.values] 
         return res
 
@@ -411,6 +413,8 @@ def argmax(self, axis=None, skipna=False):
 
     # along axis: single axis value
     if axis is not None: # res is DimArray
+        if np.ndim(res) == 0: # ...or a scalar for a 1-d array
+            return obj.axes[idx].values[res]
         res.values = obj.axes[idx].values[res.values] 
         return res
 
